@@ -7,7 +7,7 @@ from .. import sigs, invariant
 
 MANIFEST = dict(
     technique="Lean 4 proof about a constructor model driven by the class table that the translator regenerates from core.py on every run (decide over the finite table + generic lemmas) + constructor fuzz and an invariant checker applied to the outputs of library operations, like(), pickling and the Dask helpers",
-    level_text="for every class descriptor: construct = ok s implies the class contract (rank, fixed axes, non-empty samples, allowed dtype, alignment rule, chan_bw=sample_rate for baseband, pol_type); every listed violation yields ValueError and no object; every keyword-only constructor parameter of every class is a readable property (like() faithful) — the table theorems are about the translator's output; real constructors fuzzed against the model over shapes x dtypes x argument kinds, and every signal produced by library operations checked against an independent Python statement of the contract",
+    level_text="for every class descriptor: construct = ok s implies the class contract (rank, fixed axes, non-empty samples, allowed dtype, alignment rule, chan_bw=sample_rate for baseband, pol_type); every listed violation yields ValueError and no object; every keyword-only constructor parameter of every class is a readable property (like() faithful); no constructor drops a parameter (C16_ctor_forwards over the parameter flow of every __init__, regenerated from core.py on every run) — the table theorems are about the translator's output; real constructors fuzzed against the model over shapes x dtypes x argument kinds, and every signal produced by library operations checked against an independent Python statement of the contract",
     level_note="Trusted: Lean kernel (+3 std axioms), translator (class tables), hand model PbModel/Contract.lean (tied by constructor fuzz), numpy can_cast(...,'safe') taken as a measured parameter per request, astropy unit/Time validation inside the setters",
 )
 
